@@ -1,7 +1,7 @@
 """C53 engine: the REAL ClientPlayback addon + ReplayHandler (addons/clientplayback.py) on the virtual-time loop against an
 in-memory server (patched asyncio.open_connection) whose connect outcome / response / failure timing is scripted.
 Helper of property C53 only."""
-import asyncio, collections
+import asyncio, collections, contextvars
 from common.vloop import installed
 from mitmproxy.addons.clientplayback import ClientPlayback
 from mitmproxy.addons.proxyserver import Proxyserver
@@ -34,6 +34,9 @@ def snapshot(f):
     return repr(sorted(st.items(), key=lambda kv: kv[0]))
 
 
+_CUR = contextvars.ContextVar("c53_replay_ordinal", default=-1)
+
+
 class Srv:
     def __init__(self, trace, loop):
         self.trace, self.loop = trace, loop
@@ -47,7 +50,7 @@ class Srv:
         if not ok: raise OSError("refused")
         r = asyncio.StreamReader()
         w = _W(self, len(self.conns))
-        self.conns.append({"r": r, "w": w, "buf": b"", "k": None, "closed": False})
+        self.conns.append({"r": r, "w": w, "buf": b"", "k": None, "closed": False, "ord": _CUR.get()})
         return r, w
 
 
@@ -60,7 +63,7 @@ class _W:
         if c["k"] is None and b"\r\n\r\n" in c["buf"]:
             path = c["buf"].split(b" ")[1].decode()
             c["k"] = int(path.strip("/"))
-            self.srv.trace.append(["arrive", c["k"]])       # "request arrival … at the test server"
+            self.srv.trace.append(["arrive", c["k"], c["ord"]])   # "request arrival … at the test server" (+ which replay)
     def is_closing(self): return self.closing
     def close(self):
         if not self.closing: self.srv.conns[self.idx]["closed"] = True
@@ -96,11 +99,32 @@ def _run(case):
         cp = ClientPlayback()
         finished = []     # flow index, in order of the response/error hook
 
-        class Watch:
-            def response(self, f): trace.append(["finish", flows.index(f), "response"])
-            def error(self, f): trace.append(["finish", flows.index(f), "error"])
+        # the real ReplayHandler, numbered in creation order (= order of `take`) so that the completion of a replay and
+        # the arrival of its request can be told apart when the same flow is replayed several times concurrently
+        from mitmproxy.addons import clientplayback as _cpm
+        from mitmproxy.proxy import layers as _layers
+        nh = [0]
 
-        with taddons.context(cp, Watch()) as tctx:
+        class RecReplayHandler(_cpm.ReplayHandler):
+            def __init__(self, flow, options):
+                super().__init__(flow, options); self._ord = nh[0]; nh[0] += 1
+
+            async def replay(self):
+                _CUR.set(self._ord)
+                await super().replay()
+
+            async def handle_hook(self, hook):
+                try:
+                    await super().handle_hook(hook)
+                finally:
+                    # the flow has its response / error whether or not the handler's clean-up got through
+                    if isinstance(hook, (_layers.http.HttpResponseHook, _layers.http.HttpErrorHook)):
+                        kind = "response" if isinstance(hook, _layers.http.HttpResponseHook) else "error"
+                        trace.append(["finish", flows.index(self.flow), kind, self._ord])
+        orig_rh = _cpm.ReplayHandler
+        _cpm.ReplayHandler = RecReplayHandler
+
+        with taddons.context(cp) as tctx:
             ps = Proxyserver();
             try: tctx.master.addons.add(ps)
             except Exception: pass
@@ -148,8 +172,11 @@ def _run(case):
                             if i not in pre or not pending: pre[i] = before[i]
                     elif k == "stop":
                         queued = [flows.index(f) for f in cp.queue._queue]
+                        # flows with a replay running right now (awaited or background): started and not finished
+                        takes = [r[1] for r in trace if r[0] == "take"]
+                        fin = {r[3] for r in trace if r[0] == "finish"}
                         infl = sorted(set(([flows.index(cp.inflight)] if cp.inflight is not None else []) +
-                                          [i for i, f in enumerate(flows) if f.live and case["flows"][i] != "live"]))
+                                          [fl for n_, fl in enumerate(takes) if n_ not in fin]))
                         loop.call_soon(cp.stop_replay); loop.pump()
                         after = {i: snapshot(flows[i]) for i in queued}
                         trace.append(["stop", queued, sorted(set(i for i in queued if after[i] != pre[i])),
@@ -195,5 +222,6 @@ def _run(case):
                 loop.call_soon(lambda: asyncio.ensure_future(cp.done())); loop.pump()
             finally:
                 asyncio.open_connection = orig
+                _cpm.ReplayHandler = orig_rh
                 _drop_log_handlers()
     return {"trace": trace}
